@@ -912,8 +912,35 @@ func c18Writer(c *Ctx) {
 		r.Check(strings.Contains(s, "const(15)") && strings.Contains(s, "const(4)") && strings.HasPrefix(s, "bin[*]("), "C18-K5", "getter ipv4.headerLength is (b[0] & 0xf) * 4", c.P.pos(f.Pos()), "symx", "headerLength computes "+s)
 	}
 	if f := find("ipv4", "payloadLength"); f != nil {
-		s := sx.Of(returnsOf(f)[0].Results[0]).String()
-		r.Check(strings.HasPrefix(s, "bin[-](call[(dhcpv4/nclient4.ipv4).totalLength](") && strings.Contains(s, "ipv4).headerLength]("), "C18-K2", "ipv4.payloadLength is totalLength − headerLength", c.P.pos(f.Pos()), "symx", "payloadLength computes "+s)
+		// every return is totalLength − headerLength; a return of 0 is accepted only where the subtraction would wrap
+		// (behind a guard totalLength < headerLength — unreachable for a header that passed isValid)
+		okAll, got, nSub := true, "", 0
+		gc := newGuardCache(c)
+		for _, ret := range returnsOf(f) {
+			s := sx.Of(ret.Results[0]).String()
+			isSub := strings.HasPrefix(s, "bin[-](call[(dhcpv4/nclient4.ipv4).totalLength](") && strings.Contains(s, "ipv4).headerLength](")
+			if isSub {
+				nSub++
+				continue
+			}
+			clamp := false
+			if k, isK := intConst(ret.Results[0]); isK && k == 0 {
+				for _, ft := range gc.of(ret.Block()) {
+					cf, ok := normCmp(ft.cond, ft.pol)
+					if !ok {
+						continue
+					}
+					l, rr := sx.Of(cf.l).String(), sx.Of(cf.r).String()
+					if cf.op == token.LSS && strings.Contains(l, "ipv4).totalLength](") && strings.Contains(rr, "ipv4).headerLength](") {
+						clamp = true
+					}
+				}
+			}
+			if !clamp {
+				okAll, got = false, s
+			}
+		}
+		r.Check(okAll && nSub >= 1, "C18-K2", "ipv4.payloadLength is totalLength − headerLength", c.P.pos(f.Pos()), "symx of every return (0 only where the subtraction would wrap)", "payloadLength computes "+got)
 	}
 	c18Udp4pkt(c, pkt)
 }
